@@ -244,3 +244,63 @@ Definition direct_summand (D : list (list Qc)) (df : Qc) (pl : plate) (t : tripl
 Definition direct (D : list (list Qc)) (df : Qc) (ts : list triple) (pl : plate) : ext :=
   logsumexp (map (direct_summand D df pl) ts).
 End Dbal.
+
+(* ==== vocabulary of the source-translation links (harness/src_functions.py, C05_*; no proofs) ====
+   What the Gallina translations of GaussianDBALScorer.score, dbal_fast_gaussian_scoring_heteroscedastic /
+   _homoscedastic, pad_ragged_arrays_to_dense_array and the index-to-triple run of
+   dbal_fast_gauss_scoring_vectorized are written in.  One definition per attribute / numpy / library call.
+   Further error tags: 27 np.max of an empty list (pad of no arrays), 28 "Expected {} plates to be scored",
+   30 ZeroDivisionError (len / max_chunk), 31 np.array_split "number sections must be larger than 0",
+   32 `|` of arrays of different lengths, 33 unpacking an empty zip into three names, 34 rng.choice with a negative size,
+   97 no recorded answer left / recorded answer outside numpy's contract (not a Python behaviour). *)
+Definition arr2 := list (list Qc).                       (* a 2-d float array (n_thetas x n_experiments) *)
+Definition arr3 := list (list (list Qc)).                (* a dense 3-d float array without NaN *)
+Definition arr3n := list (list (list (option Qc))).      (* a dense 3-d float array, None = NaN *)
+Definition qc := Qc.
+Definition one_q : Qc := 1.                              (* distance_factor's default 1.0 *)
+Definition tqdm_t := unit.                               (* a tqdm progress bar: nothing is read from it *)
+
+(* A ScreenSubset as GaussianDBALScorer.score sees it: its selection_vector and what predict_mean_all /
+   predict_variance_all return for it with the `samples` of the call *)
+Definition pyplate := (list bool * plate)%type.
+Definition pp_sel (p : pyplate) : list bool := fst p.
+Definition pp_means (p : pyplate) : arr2 := fst (snd p).
+Definition pp_vars (p : pyplate) : arr2 := snd (snd p).
+
+(* np.ceil(a / b), a b Python ints: ZeroDivisionError for b = 0, else the ceiling of the quotient = -floor(-a / b) *)
+Definition np_ceil_div (a b : Z) : result Z :=
+  if (b =? 0)%Z then Err 30%Z else Ok (- ((- a) / b))%Z.
+(* np.array_split(l, n) with n a number: int(n) sections, ValueError unless positive *)
+Definition np_array_split {A} (l : list A) (n : Z) : result (list (list A)) :=
+  if (n <=? 0)%Z then Err 31%Z else Ok (array_split l (Z.to_nat n)).
+(* a | b on 1-d bool arrays of one length (broadcasting of a length-1 operand is not represented) *)
+Definition np_or_vec (a b : list bool) : result (list bool) :=
+  if Nat.eqb (length a) (length b) then Ok (map (fun ab => orb (fst ab) (snd ab)) (combine a b)) else Err 32%Z.
+(* a.shape != b.shape on 2-d arrays *)
+Definition shape_ne {A B} (a : list (list A)) (b : list (list B)) : bool := negb (shape2_eqb (shape2 a) (shape2 b)).
+(* pad_ragged_arrays_to_dense_array(arrays, pad_value=0.0 / np.nan): np.max([...]) of no arrays is a ValueError *)
+Definition pad_means_py (ms : list arr2) : result arr3 :=
+  match ms with [] => Err 27%Z | _ => Ok (pad_means ms) end.
+Definition pad_vars_py (vs : list arr2) : result arr3n :=
+  match vs with [] => Err 27%Z | _ => Ok (pad_vars vs) end.
+(* one call of dbal_fast_gauss_scoring_vectorized: it consumes the next recorded rng.choice answer *)
+Definition kernel_call (orc : oracle) (pred : arr3) (vars : arr3n) (D : arr2) (df : Qc) (draws : list (list Z))
+  : result (list ext * list (list Z)) :=
+  match draws with
+  | [] => Err 97%Z
+  | idxs :: rest => dor v <- kernel_checked orc pred vars D df idxs; Ok (v, rest)
+  end.
+
+(* GaussianDBALScorer.score for ANY integer max_chunk: len(plates) / 0 is a ZeroDivisionError, a negative max_chunk
+   makes n_subs <= 0 and np.array_split raise; otherwise the model scorer.  [forget_sel]: the model's plates are the
+   (means, variances) of the ScreenSubsets (their selection vectors only feed an unused mask). *)
+Definition scorer_py (orc : oracle) (max_chunk : Z) (plates : list (Z * plate)) (D : arr2) (draws : list (list Z))
+  : result (list (Z * ext)) :=
+  match plates with
+  | [] => Ok []
+  | _ => if (max_chunk =? 0)%Z then Err 30%Z
+         else if (max_chunk <? 0)%Z then Err 31%Z
+         else scorer_checked orc (Z.to_nat max_chunk) plates D draws
+  end.
+Definition forget_sel (plates : list (Z * pyplate)) : list (Z * plate) :=
+  map (fun kp => (fst kp, snd (snd kp))) plates.
